@@ -183,6 +183,10 @@ class Server:
             elif main and self.location == "notebook":
                 self.load_notebook(main, cmd["main_file"])
             return ["ok", None]
+        if k == "accept":
+            for a in cmd["names"]:
+                dds.accept_module(a)
+            return ["ok", None]
         if k == "cell":
             self.run_cell(cmd["text"])
             return ["ok", None]
